@@ -107,12 +107,12 @@ def read_doc(text, timeout=5.0, chan="raw"):
     return sut.guarded(go, timeout)
 
 
-def rdflib_expect(line):
+def rdflib_expect(line, fmt="nt"):
     """second opinion on the generator: rdflib's parse of the line, projected"""
     import rdflib
     from ..rdfmodel import from_rdflib_term
     g = rdflib.Graph()
-    g.parse(data=line + "\n", format="nt")
+    g.parse(data=line + "\n", format=fmt)
     out = []
     for s, p, o in g:
         def pr(t):
@@ -127,7 +127,14 @@ def crosscheck(line, exp):
     try:
         got = rdflib_expect(line)
     except Exception:
-        return False
+        try:
+            # N-Triples needs no white space between terms; rdflib's N-Triples parser insists on it, its Turtle parser
+            # (N-Triples is a subset of Turtle) does not
+            got = rdflib_expect(line, "turtle") if ("><" in line or '>"' in line or ">_:" in line) else None
+        except Exception:
+            got = None
+        if got is None:
+            return False
     if len(got) != 1:
         return False
 
@@ -311,7 +318,7 @@ def run_shard(tier, seed, w, W, stats, deadline):
 def stmt(draw):
     s = draw(st.integers(0, len(SUBJECTS) - 1))
     p = draw(st.integers(0, len(PREDS) - 1))
-    sep = draw(st.sampled_from(SEPS))
+    sep = draw(st.sampled_from(SEPS + [""]))         # "" : no white space between the terms (legal N-Triples)
     tail = draw(st.sampled_from(TAILS + ["  . ", "\t.", " .\t# c", " .#c"]))
     if draw(st.integers(0, 9)) < 7:
         toks = draw(st.lists(st.integers(0, len(TOKENS) - 1), max_size=12))
